@@ -162,8 +162,8 @@ def tableOf : Op → Str
 /-- parse the implementation's text of one operation, evaluate the call, and compare the operation it
 builds with `normalize o` (operations are compared through their canonical rendering) -/
 def evalAgrees (ec : ECtx) (parsed : PyAst) (o : Op) : Bool :=
-  match evalCall ec parsed with
-  | some o' => pp ec.c.isP (canon (renderOp ec.c o')) == pp ec.c.isP (canon (renderOp ec.c (normalize ec o)))
+  match evalCallT ec parsed with
+  | some o' => pp ec.c.isP (canon (renderOp ec.c o')) == pp ec.c.isP (canon (renderOp ec.c (normalizeT ec o)))
   | none => false
 
 def evalDenotes (ec : ECtx) (impl : List Char) (o : Op) : Bool :=
@@ -172,11 +172,11 @@ def evalDenotes (ec : ECtx) (impl : List Char) (o : Op) : Bool :=
   | none => false
 
 /-- the statements of one rendered top-level operation, evaluated one by one; `(holds, checked)`.
-Operations outside `evalOk` (`create_table`, shadowing keyword names) are skipped. -/
+Operations outside `evalOkT` (shadowing keyword names, …) are skipped. -/
 def evalTop (c : Ctx) (asBatch : Bool) (impl : List Char) (t : Top) : Bool × Nat :=
   match t with
   | .single o =>
-    if evalOk o then (evalDenotes { c := { c with batch := false }, table := [], schema := none } impl o, 1) else (true, 0)
+    if evalOkT o then (evalDenotes { c := { c with batch := false }, table := [], schema := none } impl o, 1) else (true, 0)
   | .modify table schema ops =>
     if ops.isEmpty then (true, 0) else
     match parseStmts (ops.length + 2) impl with
@@ -185,7 +185,7 @@ def evalTop (c : Ctx) (asBatch : Bool) (impl : List Char) (t : Top) : Bool × Na
       let ec : ECtx := { c := { c with batch := asBatch }, table := table, schema := schema }
       let body := if asBatch then asts.drop 1 else asts
       if body.length != ops.length then (false, 0) else
-      let rs := (body.zip ops).filter (fun p => evalOk p.2)
+      let rs := (body.zip ops).filter (fun p => evalOkT p.2)
       (rs.all (fun p => evalAgrees ec p.1 p.2), rs.length)
 
 end Spec.Render
